@@ -18,7 +18,9 @@ import (
 	"strings"
 
 	"github.com/theory/sqljson/path/ast"
+
 	"github.com/theory/sqljson/path/types"
+	"verif/internal/gen"
 )
 
 // Classes of model outcomes.
@@ -733,13 +735,35 @@ func (e *env) pred(n ast.Node, item any) (Tri, error) {
 	return Unknown, unspec(fmt.Sprintf("predicate %T", n))
 }
 
+// regexOf builds the regular expression of a like_regex node from its printed
+// pattern and flags (not through the library's own RegexNode.Regexp): i, s, m
+// become Go's inline flags; q makes the pattern a literal and leaves only i.
 func regexOf(n *ast.RegexNode) (re *regexp.Regexp, err error) {
-	defer func() {
-		if r := recover(); r != nil {
-			err = unspec("regexp does not compile")
+	g := gen.FromNode(n)
+	if g == nil || g.K != gen.KRegex || strings.HasPrefix(g.S, "?unquotable:") {
+		return nil, unspec("like_regex pattern not recoverable from the printed node")
+	}
+	src, fl := g.S, ""
+	quote := strings.Contains(g.Flags, "q")
+	for _, f := range []string{"i", "s", "m"} {
+		if strings.Contains(g.Flags, f) && (f == "i" || !quote) {
+			fl += f
 		}
-	}()
-	return n.Regexp(), nil
+	}
+	if strings.Contains(g.Flags, "x") {
+		return nil, unspec("like_regex flag x")
+	}
+	if quote {
+		src = regexp.QuoteMeta(src)
+	}
+	if fl != "" {
+		src = "(?" + fl + ")" + src
+	}
+	re, cerr := regexp.Compile(src)
+	if cerr != nil {
+		return nil, unspec("regexp does not compile")
+	}
+	return re, nil
 }
 
 func (e *env) pairs(l, r ast.Node, item any, unwrapRight bool, f func(a, b any) (Tri, error)) (Tri, error) {
